@@ -212,7 +212,14 @@ impl<'a> Parser<'a> {
 
     /// Peek at the next n characters.
     fn peek_str(&self, n: usize) -> &str {
-        let end = (self.pos + n).min(self.input.len());
+        let mut end = (self.pos + n).min(self.input.len());
+        // `n` counts bytes, so `end` can land inside a multi-byte character;
+        // back off to the previous boundary instead of panicking. Callers only
+        // compare against ASCII operator spellings, so a shorter slice is a
+        // clean mismatch. `self.pos` is always a boundary, so this terminates.
+        while !self.input.is_char_boundary(end) {
+            end -= 1;
+        }
         &self.input[self.pos..end]
     }
 
